@@ -187,7 +187,17 @@ func fanOut(sub, stream, in, outp string) bool {
 		return false
 	}
 	defer out.Close()
+	stats := map[string]int{}
 	for i, c := range chunks {
+		if sb, e := os.ReadFile(c.out + ".stats"); e == nil {
+			for _, l := range strings.Split(string(sb), "\n") {
+				if k, v, ok := strings.Cut(l, " "); ok {
+					n, _ := strconv.Atoi(v)
+					stats[k] += n
+				}
+			}
+			os.Remove(c.out + ".stats")
+		}
 		b, rerr := os.ReadFile(c.out)
 		if errs[i] != nil || rerr != nil {
 			fmt.Fprintln(os.Stderr, "c11: child", i, "failed:", errs[i], rerr)
@@ -196,6 +206,13 @@ func fanOut(sub, stream, in, outp string) bool {
 		out.Write(b)
 		os.Remove(c.in)
 		os.Remove(c.out)
+	}
+	if len(stats) > 0 {
+		var sb strings.Builder
+		for k, v := range stats {
+			fmt.Fprintf(&sb, "%s %d\n", k, v)
+		}
+		os.WriteFile(outp+".stats", []byte(sb.String()), 0o644)
 	}
 	return true
 }
